@@ -41,7 +41,11 @@ class Adapter:
         self.mod.Waste = VWaste
         shims.install_locks(self.mod)
         z = {"t": "none", "k": 0}
-        self.acts = [dict(z, op="ingest", t=t) for t in cfg["types"]] + [dict(z, op="digest", k=k) for k in (0, 1, 2)] + \
+        self.daemon_mod = importlib.import_module("operon_ai.healing.autophagy_daemon")
+        self.daemon_mod.Waste = self.mod.Waste          # the daemon builds its Waste through its own module namespace: same virtual-clock default
+        self.histone_mod = importlib.import_module("operon_ai.state.histone")
+        # k = 1 on an ingest of type "exp": the item enters through AutophagyDaemon.check_and_prune (healing/autophagy_daemon.py), which flushes the pruned context into the lysosome
+        self.acts = [dict(z, op="ingest", t=t) for t in cfg["types"]] + [dict(z, op="ingest", t="exp", k=1)] + [dict(z, op="digest", k=k) for k in (0, 1, 2)] + \
                     [dict(z, op="autophagy"), dict(z, op="advance", k=1)]
 
     def make(self):
@@ -107,6 +111,14 @@ class Adapter:
                 t = a["t"]
                 if t == "mis":
                     lys.ingest(m.Waste(m.WasteType.MISFOLDED_PROTEIN, {"id": k, "raw_input": "P-%d" % k, "error": "E"}, "src"))
+                elif t == "exp" and a.get("k") == 1:
+                    import io, contextlib
+                    with contextlib.redirect_stdout(io.StringIO()):
+                        d = self.daemon_mod.AutophagyDaemon(histone_store=self.histone_mod.HistoneStore(silent=True) if "silent" in self.histone_mod.HistoneStore.__init__.__code__.co_varnames else self.histone_mod.HistoneStore(),
+                                                            lysosome=lys, summarizer=lambda c: c[:20], min_tokens_for_pruning=1, silent=True)
+                        ctx, res = d.check_and_prune("ctx-%d " % k + "noise Error: x\n" * 30, max_tokens=50, force=True)
+                    if res is None or not res.pruned:
+                        raise base.MachineryError("AutophagyDaemon did not prune a forced cycle")
                 elif t == "exp":
                     lys.ingest(m.Waste(m.WasteType.EXPIRED_CACHE, {"id": k}, "src"))
                 elif t == "bad":
@@ -148,6 +160,8 @@ def _wid(waste):
     if isinstance(c, dict):
         if "id" in c:
             return c["id"]
+        if isinstance(c.get("context"), str) and c["context"].startswith("ctx-"):
+            return int(c["context"][4:].split(" ", 1)[0])
         if isinstance(c.get("context"), dict):
             return c["context"].get("id", -1)
     return -1
